@@ -7,7 +7,7 @@
 (***************************************************************************)
 EXTENDS JaqGen, Json
 
-CONSTANTS Family, MaxN, Mode
+CONSTANTS Family, MaxN, Modes, FuelN
 
 Inputs ==
   CASE Family = "binders" -> {IntV(0)}
@@ -15,24 +15,44 @@ Inputs ==
     [] Family = "paths" -> {ArrV(<< ArrV(<< IntV(0) >>), IntV(1) >>),
                             ObjV(<< << StrV(Ascii("a")), ArrV(<< IntV(0), Null >>) >> >>), IntV(0)}
     [] Family = "streams" -> {IntV(0), ArrV(<< IntV(1), Null, IntV(2) >>)}
+    [] Family = "rec" -> {Null}
+    [] Family = "pathidx" -> {ArrV(<< ArrV(<< IntV(0), IntV(1), IntV(2) >>), IntV(1), IntV(2), IntV(3) >>),
+                              ObjV(<< << StrV(Ascii("a")), ArrV(<< IntV(0), IntV(1) >>) >> >>)}
 
-VARIABLES prog, input, done
-vars == << prog, input, done >>
+VARIABLES prog, input, mode, done
+vars == << prog, input, mode, done >>
+
+\* update filters with zero, one, two outputs and an error
+UEmpty == TC0("empty")
+UOne   == TArr(TId)
+UTwo   == TComma(TId, TArr(TId))
+UErr   == TC0("error")
 
 Wrap(p) ==
+  LET Mode == mode IN
   CASE Mode = "run" -> p
     [] Mode = "paths" -> TC1("path", p)
     [] Mode = "getpath" -> TC1("getpath", TC1("path", p))
+    [] Mode = "pathvalue" -> TC1("path_value", p)
+    [] Mode = "upd-empty" -> TBin("|=", p, UEmpty)
+    [] Mode = "upd-one" -> TBin("|=", p, UOne)
+    [] Mode = "upd-two" -> TBin("|=", p, UTwo)
+    [] Mode = "upd-err" -> TBin("|=", p, UErr)
+    [] Mode = "assign" -> TBin("=", p, TComma(TNum(7), TC0("null")))
+    [] Mode = "addassign" -> TBin("+=", p, TComma(TNum(1), TArr(TNum(2))))
+    [] Mode = "altassign" -> TBin("//=", p, TComma(TNum(7), TNum(8)))
+    [] Mode = "del" -> TC1("del", p)
+    [] Mode = "collect" -> TArr(p)
 
-Expect == RunProg(Wrap(prog), input)
+Expect == RunProgF(Wrap(prog), input, FuelN)
 
-Init == prog \in Programs(Family, MaxN) /\ input \in Inputs /\ done = FALSE
+Init == prog \in Programs(Family, MaxN) /\ input \in Inputs /\ mode \in Modes /\ done = FALSE
 
 Emit ==
   /\ ~done
   /\ done' = TRUE
-  /\ PrintT(<< "VEC", ToJson([prog |-> Wrap(prog), input |-> input, expect |-> Expect]) >>)
-  /\ UNCHANGED << prog, input >>
+  /\ PrintT(<< "VEC", ToJson([prog |-> Wrap(prog), input |-> input, mode |-> mode, expect |-> Expect]) >>)
+  /\ UNCHANGED << prog, input, mode >>
 
 Spec == Init /\ [][Emit]_vars
 
@@ -44,10 +64,34 @@ WellFormed == Expect.e.k \in {"ok", "err", "brk", "div", "unk", "unsup", "halt"}
 \* no break escapes a closed program, nothing in the generated fragment is unsupported
 Closed == Expect.e.k \notin {"brk", "unsup"}
 
-\* getpath(path(p)) reproduces p  (C02), whenever path(p) is defined
+\* direct sub-terms of a syntax tree
+SubTerms(t) ==
+  CASE t.k \in {"id", "recurse", "num", "break", "var"} -> <<>>
+    [] t.k = "str" -> [i \in 1..Len(t.parts) |-> IF t.parts[i].p = "f" THEN t.parts[i].f ELSE TId]
+    [] t.k = "arr" -> IF "f" \in DOMAIN t THEN << t.f >> ELSE <<>>
+    [] t.k = "obj" -> FlatSeq([i \in 1..Len(t.es) |-> << t.es[i].key, t.es[i].val >>])
+    [] t.k \in {"neg", "label"} -> << t.f >>
+    [] t.k \in {"bin", "as"} -> << t.l, t.r >>
+    [] t.k = "fold" -> << t.xs, t.init, t.upd >> \o (IF "proj" \in DOMAIN t THEN << t.proj >> ELSE <<>>)
+    [] t.k = "try" -> << t.f, t.c >>
+    [] t.k = "if" -> << t.c, t.t, t.e >>
+    [] t.k = "def" -> [i \in 1..Len(t.defs) |-> t.defs[i].body] \o << t.r >>
+    [] t.k = "call" -> t.args
+    [] t.k = "path" -> << t.l >> \o FlatSeq([i \in 1..Len(t.parts) |->
+                          (IF "i" \in DOMAIN t.parts[i] THEN << t.parts[i].i >> ELSE <<>>) \o
+                          (IF "j" \in DOMAIN t.parts[i] THEN << t.parts[i].j >> ELSE <<>>)])
+    [] OTHER -> <<>>
+
+RECURSIVE HasAlt(_)
+HasAlt(t) ==
+  (t.k = "bin" /\ t.op = "//") \/ LET st == SubTerms(t) IN \E i \in 1..Len(st) : HasAlt(st[i])
+
+\* getpath(path(p)) reproduces p  (C02), whenever path(p) is defined; `f // g` is excluded here:
+\* its paths are those of `if first(f // false) then f else g end` (manual), which is what Ev implements
 PathsAgree ==
-  LET ps == RunProg(TC1("path", prog), input)
-      gs == RunProg(TC1("getpath", TC1("path", prog)), input)
-      vs == RunProg(prog, input)
+  HasAlt(prog) \/
+  LET ps == RunProgF(TC1("path", prog), input, FuelN)
+      gs == RunProgF(TC1("getpath", TC1("path", prog)), input, FuelN)
+      vs == RunProgF(prog, input, FuelN)
   IN (ps.e.k = "ok" /\ vs.e.k = "ok") => (gs.e.k = "ok" /\ Len(gs.o) = Len(vs.o) /\ \A i \in 1..Len(vs.o) : Eq(gs.o[i], vs.o[i]))
 =============================================================================
